@@ -63,6 +63,22 @@ def _strategy(maxW: int):
                 st_ = draw(gen.st_step(npar, cfg["gscale"], edits=False, allow_absent=False))
                 st_["mask"] = [True] + [draw(st.booleans()) for _ in range(npar - 1)]
                 steps.append(st_)
+        elif S >= 2 and draw(st.sampled_from([False, False, False, True] if fl == "fsdp" else [False] * 7 + [True])):
+            # class "long rows": rows of several hundred elements, so that shard boundaries fall hundreds of elements into a row and a shard can hold the
+            # tail of one row and the head of the next without a complete row (index arithmetic beyond the small-integer range)
+            cfg["mpd"], cfg["merge"] = 1024, draw(st.booleans())
+            cfg["start"], cfg["freq"] = 1, 1
+            cfg["precond"] = dict(cfg["precond"], ignored=[])
+            cfg["override"] = 0
+            # a shard shorter than two rows (rows between S and 2S) makes "crosses one row boundary, holds no complete row" likely
+            shapes = [[draw(st.one_of(st.integers(S + 1, 2 * S), st.integers(3, 10))), draw(st.sampled_from([300, 512, 520, 700, 259]))] for _ in range(draw(st.integers(1, 2)))]
+            if draw(st.booleans()):
+                shapes = [[S + 1, draw(st.sampled_from([512, 520, 700]))]]  # one parameter whose shards are 1 + 1/S rows long
+            elif draw(st.booleans()):
+                shapes.append([draw(st.integers(2, 4)), draw(st.sampled_from([2, 3])), draw(st.sampled_from([130, 171]))])
+            npar = len(shapes)
+            T = 3
+            steps = [draw(gen.st_step(npar, cfg["gscale"], edits=False, allow_absent=False)) for _ in range(T)]
         dc.st_param_edits(draw, steps, len(shapes))
         return dc.st_exponent_range_class(draw, {"flavour": fl, "R": R, "S": S, "G": G, "comm_params": draw(st.booleans()), "comm_dtype": draw(st.sampled_from(["default", "fp32", "fp16", "bf16"])),
                 "cfg": cfg, "shapes": shapes, "pseed": draw(st.integers(0, 10**5)), "steps": steps, "repair": True,
@@ -83,6 +99,8 @@ def strategy_thorough():
 
 def oracle(case: dict) -> Outcome:
     out, info = dc.run_case(case, "C07")
+    if any(len(sh) >= 2 and math.prod(sh[1:]) >= 258 for sh in case["shapes"]):
+        out.classes.append("rows_longer_than_256_elements")
     pb = info.get("pb")
     if pb is None:
         return out
